@@ -168,7 +168,11 @@ func (g *commonGen) template(w *World, name string, b int) []Step {
 		if g.r.Bool() && c.hasModule("recover") {
 			out = append(out, Step{Kind: "recover_start", B: b, A: a}, Step{Kind: "recover_end", B: b, A: a, Sec: &SecretRef{Kind: "recover", A: a, Idx: -1}, Sec2: g.newPasswordFor(a)})
 		} else {
-			out = append(out, Step{Kind: "op_update_password", B: b, A: a, Sec: g.newPasswordFor(a)})
+			up := Step{Kind: "op_update_password", B: b, A: a, Sec: g.newPasswordFor(a)}
+			if g.r.Bool() {
+				up.Str = map[string]string{"via": "admin"}
+			}
+			out = append(out, up)
 		}
 		out = append(out, Step{Kind: "drop_session", B: ob}, g.fill(w, "probe", ob), Step{Kind: "drop_session", B: b}, g.fill(w, "probe", b),
 			Step{Kind: "login", B: ob, A: a, Sec: &SecretRef{Kind: "oldpassword", A: a, Idx: -1}}, Step{Kind: "login", B: ob, A: a, Sec: pw(a)})
@@ -369,10 +373,10 @@ func (g *commonGen) template(w *World, name string, b int) []Step {
 	case "regate_while_logged_in":
 		// a logged-in session passes the guard, the operator then locks the
 		// account / re-starts its confirmation, the same session comes back
-		guard := "/probe/lock"
+		guard := []string{"/probe/lock", "/nok/lock"}[g.r.Intn(2)]
 		op := "op_lock"
 		if c.hasModule("confirm") && (g.r.Bool() || !c.hasModule("lock")) {
-			guard, op = "/probe/confirm", "op_start_confirm"
+			guard, op = []string{"/probe/confirm", "/nok/confirm"}[g.r.Intn(2)], "op_start_confirm"
 		}
 		if !c.hasModule("lock") && !c.hasModule("confirm") {
 			return nil
@@ -527,6 +531,22 @@ func (g *commonGen) template(w *World, name string, b int) []Step {
 			}
 		}
 		return out
+	case "cookie_then_idle":
+		// a session a remember cookie established (half-authenticated) idles out like any other
+		if !c.ExpireWithRemember {
+			return g.template(w, "idle_probe", b)
+		}
+		for i := range w.Accts {
+			if w.KB.TOTPSecret[i] == "" && w.KB.SMSNumber[i] == "" {
+				a = i
+			}
+		}
+		E := c.ExpireAfter
+		pr := func(gap time.Duration) Step {
+			return Step{Kind: "probe", B: b, Gap: gap, Str: map[string]string{"path": "/probe/open"}}
+		}
+		return []Step{{Kind: "drop_session", B: b}, {Kind: "login", B: b, A: a, Sec: pw(a), RM: true}, {Kind: "drop_session", B: b},
+			pr(0), pr(0), pr(E / 2), pr(E + time.Second + g.r.Dur(0, E)), pr(0), pr(0)}
 	case "upgrade_to_expire":
 		// sessions established before the expire module was deployed carry no
 		// activity stamp; the deployment is the first restart
